@@ -231,6 +231,7 @@ Definition cts_valid (ts : tstate) (t : vtree) : bool :=
 Section Instance.
   Variable H : list ascii -> N.
   Variable EV : str -> evr.
+  Variable bd : str.            (* the build directory; download directories live under it *)
   Variable store : str -> N -> list ydoc.
 
   Definition ytree_of (t : vtree) : ytree := map (fun fv => (fst fv, store (fst fv) (snd fv))) t.
@@ -239,11 +240,11 @@ Section Instance.
     rmap (fun r => map fst (snd r)) (load_files (S (S (length t * 8))) t [(project_file, None)] 0 []).
 
   Definition cload_ts (t : vtree) : res tstate :=
-    rbind (load (ytree_of t) project_file) (fun _ =>
+    rbind (load (ytree_of t) project_file bd) (fun _ =>
     rmap (map (fun f => (f, version t f))) (loaded_files (ytree_of t))).
 
   Definition cgen (t : vtree) (a : cargs) : res gen_result :=
-    rbind (load (ytree_of t) project_file) (fun b =>
+    rbind (load (ytree_of t) project_file bd) (fun b =>
     rbind (cli_selects a) (fun sel =>
     rbind (cli_env a) (fun cenv =>
     generate H EV b (ca_le a) (ca_builders a) (ca_apps a) (ca_local a)
